@@ -203,6 +203,42 @@ pub fn universe(cfg: GenCfg) -> BoxedStrategy<Universe> {
 pub fn sanitize(u: &mut Universe) {
     for p in &mut u.programs {
         fix(p, false);
+        tame(p);
+    }
+}
+
+/// * a fan of more than 4 tasks is not repeated: inside a stream loop or another fan it is cut to 4
+///   (a fan of 40 per item of a drained stream is tens of thousands of tasks per case).
+fn tame(c: &mut Cmd) {
+    fn stmts(t: &mut [Stmt], repeated: bool) {
+        for s in t {
+            match s {
+                Stmt::Fan(n, b) => {
+                    if repeated && *n > 4 {
+                        *n = 4;
+                    }
+                    stmts(b, true);
+                }
+                Stmt::StreamLoop(_, b) => stmts(b, true),
+                Stmt::Spawn(b) => stmts(b, repeated),
+                Stmt::JoinN(bs) | Stmt::Select(bs) | Stmt::SelectKeep(bs) => bs.iter_mut().for_each(|b| stmts(b, repeated)),
+                _ => {}
+            }
+        }
+    }
+    match c {
+        Cmd::Then(a, b) | Cmd::And(a, b) => {
+            tame(a);
+            tame(b);
+        }
+        Cmd::All(cs) | Cmd::Collect(cs) => cs.iter_mut().for_each(tame),
+        Cmd::MapEvent(_, c) | Cmd::MapEffect(_, c) | Cmd::Abortable(_, c) => tame(c),
+        Cmd::WithSpawn(_, c, t) => {
+            tame(c);
+            stmts(t, false);
+        }
+        Cmd::Async(_, t) => stmts(t, false),
+        _ => {}
     }
 }
 
